@@ -354,7 +354,10 @@ quat_lattice_lll(ibz_mat_4x4_t *red, const quat_lattice_t *lattice, const ibz_t 
             }
             // B_k = bStar_k*bStar_k
             dotproduct_rr_row(&B[k], bStar, bStar, q, k, k);
-            if (mpf_get_d(B[k]) == 0.0) {
+            // Test the mpf value itself: mpf_get_d underflows to 0.0 for B_k < 2^-1074, which happens for
+            // full-rank lattices given by a skewed basis. An exact float zero must still be caught, the
+            // next statements divide by B[k].
+            if (mpf_sgn(B[k]) == 0) {
                 // b_i did not form a basis, terminate with error
                 ret = -1;
                 goto err;
